@@ -6,11 +6,75 @@ HOOK_COMMITS = ["bb18efc"]
 
 CHECKS = {
  # id: (level, technique, text, note, design_ref, engine)
+ "C01": ("exploration",
+         "bounded-exhaustive enumeration of reference-encoded volumes (every record partition, metadata at every position) against the encoder's own radial list",
+         "Volumes are produced by an independent Archive II / type-31 encoder: every elevation word over {1,2,3} up to length 4/5, run-length patterns, EVERY partition of the message stream into bzip2 records (<= 8 messages), SAILS / 255 / 1..=255 sequences, a metadata frame of each kind at every position, moment subsets x gate counts x VOL placements, a 2,520-radial volume. File::scan must return exactly the encoder's radials (identity by unique timestamp, values via the reference conversion) in maximal equal-elevation runs and the first VOL block's VCP number.",
+         "bzip2 encoder, reference layouts (DESIGN Appendix A); only well-formed volumes", "DESIGN.md §5 C01", "E3"),
+ "C02": ("exploration",
+         "product enumeration of type-31 block orders x pointer layouts x gates x word sizes x value plans, per-offset oracle",
+         "All ordered selections of <=3/4 of the 10 block kinds plus all 1024 subsets in canonical and reversed order, x {contiguous, gap 1, gap 7, permuted pointer table[, rotated+gap]} x gates {0,1,2,1840,1841} x word size {8,16} x 2/5 value plans in which every field holds a distinct value; every decoded header/block field is compared with the big-endian bytes at its ICD offset, gate bytes and absence included.",
+         "independent offset tables; f32 compared by bit pattern", "DESIGN.md §5 C02", "E3"),
+ "C03": ("exploration",
+         "exhaustive enumeration of message streams over a kind alphabet and all type-code pairs; every truncation point; differential oracle",
+         "All streams of length 0..=5/6 over 9 message kinds (status, VCP, type 15, 3, 18, unknown 200, type-31 with 0/4/10 blocks), all 256x16/256x256 two-frame type-code pairs, 300-message streams, and every truncation point of a base set. Message i must equal the same bytes decoded alone, counts and order preserved, undecoded types are placeholders occupying one frame, cuts inside a body are errors and shorter-than-header tails are ignored.",
+         "reference framing (2432-byte frames, contiguous type-31)", "DESIGN.md §5 C03", "E3"),
+ "C04": ("exploration",
+         "deviation-bounded mutation (<=2 byte deviations from valid streams), every prefix, field-extreme products and an exhaustive small scope of byte strings, under a counting allocator, fuel reader and watchdog",
+         "Totality of every decode entry point and of radial()/into_radial(): all prefixes of valid streams, all single-byte mutations x 8 values and all pairs on structural bytes, type-31/VCP/clutter field extremes, all strings of length <=2 x 256 type codes and all strings of length 3..6/8 over an 8-symbol alphabet. Each call must return, not exhaust a 64+8*len operation budget, and keep peak allocation under 4 MiB + 64*len.",
+         "bounded scope (not all byte strings); allocator/fuel/watchdog in the harness", "DESIGN.md §5 C04", "E1/E3"),
+ "C05": ("exploration",
+         "product enumeration of container files (record kinds x sizes x signs x payloads x levels) against the writer's own record list",
+         "0..=4 records per file, raw and bzip2 records of 8 sizes (0 B..70,000 B, plus 900 KiB multi-block), both prefix signs, six payload kinds including bzip2 look-alikes and already-compressed payloads, five header plans: records must tile file[24..], compressed() <=> 'BZ' after the prefix, decompress round-trips, the error cases are errors, header accessors return the encoded values; chunk wrappers included.",
+         "bzip2 encoder trusted", "DESIGN.md §5 C05", "E3"),
+ "C06": ("exploration",
+         "exhaustive small scope of byte strings, every truncation point of valid containers and byte corruption sweep through every container operation",
+         "Every length 0..=64 x 13 content families, all strings of length <=2, all strings of length 3..6/7 over {00,04,FF,A,R,2,B,Z}, every truncation point of 12 volumes and 8 chunks, every byte x {00,FF,bit flips} of small records: File/Record/Chunk operations (records, header, scan, compressed, decompress, messages, Debug, ...) must return and terminate.",
+         "bounded scope; watchdog for termination", "DESIGN.md §5 C06", "E1/E3"),
+ "C07": ("exploration",
+         "exhaustive raw-value enumeration (2^8 and 2^16) per moment and scale/offset pair; header mapping product",
+         "All 256 raw values x 7 moments x 10 (scale, offset) pairs and all 65,536 raw values for 16-bit moments, compared bit-exactly with (raw-offset)/scale at decode level and model level; status 0..=7 x spacing codes x azimuth/elevation bounds x date/time; all 128 moment subsets x 4 gate counts; radial() == into_radial().",
+         "f32 reference arithmetic; scale 0 with raw 0/1 only checked for decode==model", "DESIGN.md §5 C07", "E3"),
+ "C08": ("exploration",
+         "exhaustive cross over the complete day domain and the complete minute/millisecond domains for all seven date-time accessors",
+         "All 65,536 day counts x boundary ms/min and x all 1,440 minutes; all 65,536 minute values x 16 boundary days; (thorough) 16 days x all 86,400,000 ms; out-of-range values must return. Oracle (d-1)*86400000+t in i64, the same for the decode and data crates.",
+         "full (day, ms) product not enumerable; fast path mutates public wire fields of decoded structs", "DESIGN.md §5 C08", "E3"),
  "C09": ("model_checking",
          "explicit-state search (stateright BFS+DFS) over elevation words, invariant calls the real Sweep::from_radials in every state; exhaustive product for merge",
          "Every elevation word over {1,2,3} up to depth 9 (quick) / 11 (thorough), {0,1,255} up to 7/9 and {1..5} up to 7 is a state; in each state the real from_radials is run and compared with a reference grouping (conservation, labels, maximality, split-differential). merge is checked on every pair of azimuth words up to length 3/4 x same/different elevation. Coverage statement, not a sample.",
          "reference grouping / stable-merge model in the harness; radials built through the public constructor; overflow checks on",
          "DESIGN.md §5 C09", "E2"),
+ "C10": ("exploration",
+         "exhaustive enumeration of type codes, size values and count/number planes",
+         "All 256 type codes (own variant / Unknown(code), injective), six channel codes, 5 layout plans, all 65,536 size values x 49 boundary (count, number) pairs, complete count and number planes for the variable-length marker: segmented(), both size accessors (plain and uom), segment count/number must follow the stated semantics and return.",
+         "type table transcribed from the enum discriminants; overflow-checks on", "DESIGN.md §5 C10", "E3"),
+ "C11": ("exploration",
+         "exhaustive raw-value enumeration (2^16 / 2^8) per accessor; all cut counts; per-offset layout oracle",
+         "Cut counts 0..=51 under 5 value plans with every header/cut field compared with its ICD offset; counts that do not fit the frame must be errors; all 65,536 raw values through every angle/rate/threshold/bit-field accessor and all 256 through byte-wide codes, against mask/shift and scaling formulas.",
+         "bit/offset tables from DESIGN Appendix A/B; uom accessors with 1e-9 tolerance", "DESIGN.md §5 C11", "E3"),
+ "C12": ("exploration",
+         "exhaustive raw-value enumeration per flag word/coded field/alarm code; per-halfword layout oracle",
+         "5 value plans over all 60 halfwords; every documented (code, meaning) pair of 14 coded fields with pairwise distinctness; all 65,536 raw values through every flag accessor (exact mask), scaled values, build rule, VCP sign rule, clutter segment subsets and the alarm lookup; all placements of <=2/3 alarm codes among the 14 slots.",
+         "code tables by numeric value from the field documentation (DESIGN Appendix B)", "DESIGN.md §5 C12", "E3"),
+ "C13": ("exploration",
+         "enumeration of all segment counts and zone-count patterns; every truncation point",
+         "Segment counts 0..=255, five zone-count patterns (0, 1, 25, varying, mixed) for small counts, a 65,535-zone azimuth, and every truncation point of two (thorough four) maps; decoded structure must equal the encoder's, truncations must be errors.",
+         "segment numbering checked as consecutive", "DESIGN.md §5 C13", "E3"),
+ "C14": ("model_checking",
+         "explicit-state search (stateright BFS) over message words; invariant runs the real summarize::messages in every state against a reference grouper",
+         "Words over {R1, R1v, R2, S, V, O3, O18} to depth 6/7, {R1,R2} to depth 12/14 and a 4/5-symbol alphabet to depth 7/8, each symbol a real decoded message stamped with its position; tiling, count=span, maximal-run rule, continuation flags, data-type counts, first/last azimuth and time, collection-time range, VCP set and a split differential are checked in every state.",
+         "coded fields within documented domains; data-type names are the public HashMap keys", "DESIGN.md §5 C14", "E2"),
+ "C15": ("model_checking",
+         "exhaustive enumeration of all 998,002 bucket shapes through the real search (hook) plus simulator runs of get_latest_volume with probe-trace conformance",
+         "Every (newest position, populated count) shape at N=999 and every shape for N in 1..=64 is run through the real rotated search with target MAX; get_latest_volume is run against the S3 simulator for 63+ bucket states and the directories it requests must equal the search-level probe trace, result, call count and probe bound checked.",
+         "verif-hooks (search wrapper, endpoint override); shapes are single contiguous runs with distinct upload times", "DESIGN.md §5 C15", "E3/E4"),
+ "C16": ("model_checking",
+         "explicit-state search (stateright) of the successor graph whose transition function is the real next_chunk; exhaustive 999x55 enumeration",
+         "Reachable set from (1,1) must be exactly 54,945 positions with in-degree 1 and a 54,945-step orbit; every position x 3 prefixes as initial state; all names parse back; with_sequence 55x55; archive names for every date 1991..2040 and every second of a day; totality over multi-byte insertions at every offset and all short strings over a 10-symbol alphabet.",
+         "independent civil-date arithmetic; debug-assertions off", "DESIGN.md §5 C16", "E2/E3"),
+ "C19": ("model_checking",
+         "explicit-state search (stateright BFS) over histories of recorded timings; exhaustive cut lists x sequences",
+         "Every cut list over {half-degree, other} up to length 10/12 x sequences up to 100/200 against a cumulative-sum model; estimate defaults over waveform x channel x previous sequence 0..=60; every history over 3 samples x 1 key to depth 11/12 (and 2-3 keys shallower): in every state the real estimate must equal previous + mean(last 10) + (mean attempts - 1) s within 1 s and get_statistics must agree.",
+         "1 s tolerance for history-based estimates", "DESIGN.md §5 C19", "E2/E3"),
 }
 
 PENDING = {
